@@ -87,7 +87,7 @@ func (r *Recomposer) registerComposer(rt reflect.Type, fun RecomposeFunc) (*comp
 		return nil, fmt.Errorf("only structs can be recomposed. %s is not a struct type", rt)
 	}
 	c := r.composers[full]
-	if c == nil {
+	if c == nil || c.rtype != rt { // anonymous types all share one name
 		c = &composer{
 			fun:   fun,
 			short: rt.Name(),
@@ -410,7 +410,7 @@ func (r *Recomposer) recomp(v any, rv reflect.Value) {
 	case reflect.Struct:
 		vm, ok := (v).(map[string]any)
 		if !ok {
-			if c := r.composers[rv.Type().Name()]; c != nil && c.any != nil {
+			if c := r.composers[rv.Type().Name()]; c != nil && c.any != nil && c.rtype == rv.Type() {
 				if val, err := c.any(v); err == nil {
 					if val == nil {
 						break
@@ -448,7 +448,7 @@ func (r *Recomposer) recomp(v any, rv reflect.Value) {
 			return
 		}
 		var im map[string]reflect.StructField
-		if c := r.composers[rv.Type().Name()]; c != nil {
+		if c := r.composers[rv.Type().Name()]; c != nil && c.rtype == rv.Type() { // the short name is not unique
 			if c.fun != nil {
 				if val, err := c.fun(vm); err == nil {
 					vv := reflect.ValueOf(val)
